@@ -115,7 +115,15 @@ inductive BKind where
   | probe      -- scripted block: events a, b (no requirements), need (requires `value`), ping (no-op)
   | input      -- edzed.Input
   | counter    -- edzed.Counter
+  | outfunc    -- edzed.OutputFunc: sends on_success / on_error events from inside its handler
   deriving Repr, Inhabited, DecidableEq
+
+/-- the user function of an OutputFunc -/
+inductive FuncScript where
+  | const (v : Val)     -- `lambda value: v`
+  | value               -- `lambda value: value`
+  | fail                -- raises RuntimeError
+  deriving Repr, Inhabited
 
 structure Blk where
   kind : BKind := .probe
@@ -129,6 +137,9 @@ structure Blk where
   initdef : Val := .undef          -- input / counter
   allowed : Option (List Val) := Option.none    -- input
   cmod : Option Counter.Num := Option.none      -- counter
+  func : FuncScript := .value                   -- outfunc
+  onSuccess : List Edge := []                   -- outfunc
+  onError : List Edge := []                     -- outfunc
   deriving Repr, Inhabited
 
 structure Circ where
@@ -199,6 +210,7 @@ def handlersOf : BKind → HTable
   | .probe => probeHandlers
   | .input => Gen.inputHandlers
   | .counter => Gen.counterHandlers
+  | .outfunc => Gen.outputFuncHandlers
 
 /-- `type(self)._ct_handlers.get(etype)` for a resolved event type -/
 def lookupHandler (k : BKind) : EType → Option (String × List String × List String × Bool)
@@ -285,6 +297,18 @@ def counterResult (b : Blk) (out : Val) (name : String) (data : Data) : Except E
     | .paramError => .error .other       -- unreachable: the call does not bind without `value`
   | _, _ => .error .typeError            -- arithmetic on a non-number raises TypeError
 
+/-- the user function of an OutputFunc: `none` = it raised -/
+def funcResult (f : FuncScript) (v : Val) : Option Val :=
+  match f with
+  | .const r => some r
+  | .value => some v
+  | .fail => Option.none
+
+/-- `('result', r)` (values are atoms in the scenarios) -/
+def resultTuple : Val → Val
+  | .atom a => .tup [.str "result", a]
+  | _ => .tup [.str "result"]
+
 /-- the handler body, entered after the call has bound its parameters -/
 def handlerBody (dlv : Dlv) (b : Blk) (d : Nat) (s : St) (name : String) (data : Data) : St × Res :=
   match b.kind with
@@ -305,11 +329,26 @@ def handlerBody (dlv : Dlv) (b : Blk) (d : Nat) (s : St) (name : String) (data :
     match counterResult b (s.out d) name data with
     | .error x => (s, .exc x)
     | .ok v => andThen (setOutput dlv b d s v) (fun s1 => (s1, .ret v))
+  | .outfunc =>
+    -- `OutputFunc._event_put`: `args = tuple(data[k] for k in ('value',))` raises KeyError in the handler
+    match data.get? "value" with
+    | Option.none => (s, .exc .other)
+    | some v =>
+      match funcResult b.func v with
+      | Option.none =>
+        -- `except Exception`: on_error events (sent by the handler), return ('error', err)
+        andThen (sendEdges dlv d s b.onError [("trigger", .str "error"), ("error", .str "RuntimeError")])
+          (fun s1 => (s1, .ret (.tup [.str "error"])))
+      | some r =>
+        -- AFTER the try statement: on_success events, return ('result', result)
+        andThen (sendEdges dlv d s b.onSuccess [("trigger", .str "success"), ("value", r)])
+          (fun s1 => (s1, .ret (resultTuple r)))
 
 /-- `init_regular()` -/
 def initRegular (dlv : Dlv) (b : Blk) (d : Nat) (s : St) : St × Res :=
   match b.kind with
   | .probe => runActs dlv b d s b.initScript
+  | .outfunc => setOutput dlv b d s (.bool false)
   | _ => (s, .ret .none)
 
 /-- `init_from_value(initdef)` if the block is still uninitialised and has an initdef -/
@@ -317,6 +356,7 @@ def initFromValue (dlv : Dlv) (b : Blk) (d : Nat) (s : St) : St × Res :=
   if (s.out d).isUndef && !b.initdef.isUndef then
     match b.kind with
     | .probe => (s, .ret .none)                                  -- no `init_from_value`
+    | .outfunc => (s, .ret .none)
     | .input => dlv s d (.name "put") [("value", b.initdef)]    -- `self.event('put', value=value)`
     | .counter => setOutput dlv b d s (Counter.reduce (counterCfg b) (counterCfg b).initdef).toVal
   else (s, .ret .none)
